@@ -312,9 +312,9 @@ impl TransactionGuard {
     pub(crate) fn allocate_read(
         tracker: Arc<TransactionTracker>,
         mem: &TransactionalMemory,
-    ) -> Result<Self> {
-        let id = tracker.register_read_transaction(mem)?;
-        Ok(Self::new_read(id, tracker))
+    ) -> Result<(Self, Option<BtreeHeader>)> {
+        let (id, data_root) = tracker.register_read_transaction(mem)?;
+        Ok((Self::new_read(id, tracker), data_root))
     }
 
     pub(crate) fn new_write(
@@ -439,7 +439,7 @@ impl Sealed for ReadOnlyDatabase {}
 #[cfg(not(redb_no_std))]
 impl ReadableDatabase for ReadOnlyDatabase {
     fn begin_read(&self) -> Result<ReadTransaction, TransactionError> {
-        let id = self
+        let (id, data_root) = self
             .transaction_tracker
             .register_read_transaction(&self.mem)?;
         #[cfg(feature = "logging")]
@@ -447,7 +447,7 @@ impl ReadableDatabase for ReadOnlyDatabase {
 
         let guard = TransactionGuard::new_read(id, self.transaction_tracker.clone());
 
-        ReadTransaction::new(self.mem.clone(), guard)
+        ReadTransaction::new(self.mem.clone(), guard, data_root)
     }
 
     fn cache_stats(&self) -> CacheStats {
@@ -558,12 +558,13 @@ impl Sealed for Database {}
 
 impl ReadableDatabase for Database {
     fn begin_read(&self) -> Result<ReadTransaction, TransactionError> {
-        let guard = TransactionGuard::allocate_read(self.transaction_tracker.clone(), &self.mem)?;
+        let (guard, data_root) =
+            TransactionGuard::allocate_read(self.transaction_tracker.clone(), &self.mem)?;
         #[cfg(redb_verif)]
         crate::verif_types::pause("begin_read.registered");
         #[cfg(feature = "logging")]
         debug!("Beginning read transaction id={:?}", guard.id());
-        ReadTransaction::new(self.get_memory(), guard)
+        ReadTransaction::new(self.get_memory(), guard, data_root)
     }
 
     fn cache_stats(&self) -> CacheStats {
